@@ -3,11 +3,13 @@
    template) over the regenerated format strings; and, for every error the parser model returns on any input:
    the reported text is the input itself (group errors) or one of its documented expansions (all others), every
    position and length lies inside it, and the indicated bytes are "()" / a parenthesis / "{}" / a brace / the
-   brace-delimited parameter(s) concerned.  Not proved (decided by the oracle err_ok_b of Check/Checker.v on
-   every error the crate produces - exhaustive over the syntax alphabet to length 5/6 plus random templates):
-   the finer classification inside the braces (that the name really is empty / contains an invalid character /
-   is the one duplicated), that an unbalanced-parenthesis error points at an UNMATCHED one and an unbalanced-brace
-   error at the FIRST brace fault. *)
+   brace-delimited parameter(s) concerned; and for the five parameter errors the stated cause is the real one:
+   with the text between the braces split at its first ':', the name is empty / is just '*' / (after a leading
+   '*') is the reported name and holds a reserved character / the constraint is empty / is the reported one and
+   holds a reserved character.  Not proved (decided by the oracle err_ok_b of Check/Checker.v on every error the
+   crate produces - exhaustive over the syntax alphabet to length 5/6 plus random templates): that the two
+   parameters of a duplicate error carry the reported name, that an unbalanced-parenthesis error points at an
+   UNMATCHED one and an unbalanced-brace error at the FIRST brace fault. *)
 From WF Require Import Base.Bytes Spec.Route Model.Parser Model.Render Model.Display Proofs.RenderP.
 
 Theorem C14_render_caret_line :
@@ -54,3 +56,45 @@ Theorem C14_expansion_errors_point_at_braces :
   forall (raw : bytes) (e : terr), parse_template raw = Err e -> tmpl_err_ok raw e.
 Proof. exact parse_template_err. Qed.
 Print Assumptions C14_expansion_errors_point_at_braces.
+
+(* ---- and what is wrong between the braces ---- *)
+Print cause_ok.
+Print inside.
+Theorem C14_error_states_the_actual_cause :
+  forall (t : bytes) (e : terr),
+    parse t = Err e ->
+    (e = EEmpty /\ t = []) \/ paren_err_ok t e
+    \/ exists es raw, expansions_spec t = Some es /\ In raw es /\ tmpl_err_ok raw e /\ cause_at raw e.
+Proof. exact parse_err_cause. Qed.
+Print Assumptions C14_error_states_the_actual_cause.
+
+(* ---- duplicates: both reported spans carry exactly the reported name ---- *)
+Print dup_ok.
+Print name_inside.
+Theorem C14_full :
+  forall (t : bytes) (e : terr),
+    parse t = Err e ->
+    (e = EEmpty /\ t = []) \/ paren_err_ok t e
+    \/ exists es raw, expansions_spec t = Some es /\ In raw es
+         /\ tmpl_err_ok raw e /\ cause_at raw e /\ dup_ok raw e.
+Proof. exact parse_err_full. Qed.
+Print Assumptions C14_full.
+
+(* ---- "the unmatched brace or parenthesis": everything before the reported byte is balanced, and it is a closer
+        with nothing open or an opener that never closes (Print nest / bnest: escape pairs skipped) ---- *)
+From WF Require Import Proofs.ExpandSpecP Proofs.UnmatchedP.
+Print nest.
+Print bnest.
+Print split_close.
+Print brace_content.
+Print paren_unmatched.
+Print brace_unmatched.
+Theorem C14_complete :
+  forall (t : bytes) (e : terr),
+    parse t = Err e ->
+    (e = EEmpty /\ t = [])
+    \/ (paren_err_ok t e /\ paren_unmatched t e)
+    \/ exists es raw, expansions_spec t = Some es /\ In raw es
+         /\ tmpl_err_ok raw e /\ cause_at raw e /\ dup_ok raw e /\ brace_unmatched raw e.
+Proof. exact parse_err_complete. Qed.
+Print Assumptions C14_complete.
